@@ -41,6 +41,34 @@ CLAIMED = {
              text='Per-line fields are marked stale at idle; a load of a stale field before a store on any continuation is a violation, so nothing of an earlier line can influence a later one; the flags carried by value (cr_flag, implicit_write_flag, hold flag) are constant false on every edge into idle; every reading state reacts to CR by setting only cr_flag (idle ignores it); newline text is spelled in one selector only, which returns CRLF iff cr_flag.',
              note='Variable values and handler behaviour are part of a line\'s input. Event lines use the current line\'s flag (not claimed).',
              ref='DESIGN.md 4/C20'),
+ 'C03': dict(technique='abstract interpretation (linear forms + intervals + NUL-termination typestate) of every memory access and arithmetic operator; region ownership per machine',
+             text='Every load/store/memcpy/memset/strncpy/snprintf/strcpy/strlen site reached in either machine or in any exported function is an obligation offset+width <= reference capacity (capacities come from the descriptor contract, not from the code\'s accessors; shared-buffer halves are separate regions), discharged by relational facts carried across state-machine steps (joins with widening) and by the scan lemma for NUL-terminated buffers; every signed operation and shift carries a no-overflow obligation; each machine touches only its own buffer region. An access the analysis cannot attach to a capacity is reported, not skipped.',
+             note='Descriptor domain as stated in C03; 64-bit counters of input bytes do not overflow; callback contract for handler-modified buffers. Alignment of user storage and validity of descriptor pointers are assumed.',
+             ref='DESIGN.md 4/C03'),
+ 'C04': dict(technique='interval analysis of the accumulators (no wrap), extraction of the validators\' range table, fail-closed path rule',
+             text='In the three numeric decoders every multiply/shift/add of the 64-bit accumulator must stay in range under the guards on the path (an unguarded accumulator is reported); for every store into a numeric variable the refined interval of the stored value must equal the range of the stored type, whose width equals the data_size case and whose signedness matches the variable type, and the stored value is the parsed value itself; a failing decoder, validator or variable callback ends in ERROR without reaching the write handler.',
+             note='The grammar clause (which digit strings are accepted) is checked only structurally by the quick tier. Read-only variables are excluded by C08\'s rule reused here.',
+             ref='DESIGN.md 4/C04'),
+ 'C05': dict(technique='bound and tightness of every byte store in the two buffer decoders; capacity-comparison extraction',
+             text='Every byte store of the hex and string decoders (plain, escaped, hex byte, terminating NUL) has offset+1 <= data_size on every path; every comparison against data_size in those decoders sits exactly at the capacity (so a text is refused for lack of room only if it does not fit); the size reported to the variable callback is the decoded size, 0 for read-only; failure is fail-closed as in C04.',
+             note='Grammar of the accepted texts (quotes, escapes, digit pairing) is not compared with a reference automaton in the quick tier.',
+             ref='DESIGN.md 4/C05'),
+ 'C06': dict(technique='must-store / tightness analysis of the argument-collecting state, argument agreement at the handler call sites',
+             text='In the argument state every consumed byte other than LF/CR is stored unmodified at buf[length], followed by a NUL, with length+1, or the machine enters the drain state, or it is the =? shortcut; a byte is accepted exactly when it and its terminator fit; the drain state has no side effect and ends in ERROR; write handlers receive (command buffer, length, parsed-variable count) with the NUL at length, read/test handlers their own machine\'s buffer, &position and exactly the reference capacity of that buffer.',
+             note='Byte-for-byte equality follows by induction on the collecting transition; it is not separately executed.',
+             ref='DESIGN.md 4/C06'),
+ 'C08': dict(technique='guard dominance for stores (access != read-only), taint/non-interference analysis for write-only data, gate predicates',
+             text='Every store into variable storage (all decoder and validator paths, failing ones included) carries the path fact access != READ_ONLY and read-only variables report size 0; on every formatting path with access == WRITE_ONLY no atom loaded from the variable reaches a printer argument, a buffer write or a branch condition (explicit and implicit flows); formatting starts only if the access predicate found something readable, decoding only if something writable; the predicate returns true only for a read-write or matching variable.',
+             note='What user handlers do with data is outside the library.',
+             ref='DESIGN.md 4/C08'),
+ 'C09': dict(technique='guard dominance across state-machine steps (facts carried in abstract states), flat-index helper agreement',
+             text='Every indirect handler call in both machines is dominated by its non-NULL test (possibly a step earlier; the fact travels in the abstract state and dies when the command pointer changes); the lookup selects or counts a candidate only with command and group enabled, for the same flat index (the two index helpers are verified against the summaries used: same group walk, element index-base, flags of that entry); run/read/write handlers, variable callbacks and variable stores happen only with only_test and disable known false; refused requests have no side effect.',
+             note='Flags change only between lines, as in the property.',
+             ref='DESIGN.md 4/C09'),
+ 'C10': dict(technique='extraction of the return-code -> response-action table of each handler loop in both machines and comparison with the documented table',
+             text='For the six handler call sites the set of possible return values on each path is intersected with the nine enumerators and out-of-range values, the abstract response action of the transition is classified from its effects (result code, flush with continuation, re-format, stay, hold, list, release request) and compared with the table of cat.h; continuations after an emitted buffer re-format or finish exactly once; events never produce a result code; a failing variable callback aborts before the command handler. Because the machines are memoryless apart from tracked fields this covers every finite sequence of codes.',
+             note='Cells on which cat.h and the property are silent (HOLD_EXIT_* for command read/test, HOLD and test/PRINT_CMD_LIST for events) are extracted and shown but not compared.',
+             ref='DESIGN.md 4/C10'),
 }
 
 def main():
